@@ -17,7 +17,7 @@ MANIFEST = {
     "technique": "exhaustive enumeration of the save/load configuration product against a format capability model and "
                  "independent byte/text readers",
     "text": "18 extensions x n_atoms {1,2,9,10,13} x n_frames {1,2,3} x cell {none, cubic, orthorhombic, triclinic, "
-            "per-frame varying, three single-skew monoclinic cells, two small rhombohedral cells at the two-atom restart reader's box/velocity threshold} x magnitude {1e-3, 1, 90, 950 nm; 20 000 nm along z for binary formats} x sign {mixed, positive} x time {default, uniform 2 ps, "
+            "per-frame varying, a cell with beta and gamma on opposite sides of 90 degrees, three single-skew monoclinic cells, two small rhombohedral cells at the two-atom restart reader's box/velocity threshold} x magnitude {1e-3, 1, 90, 950 nm; 20 000 nm along z for binary formats} x sign {mixed, positive} x time {default, uniform 2 ps, "
             "non-uniform} x options (gro precision 1/3/5; pdb ter x header x bfactors) — quick runs a complete sub-product "
             "(atoms {1,9,10}, frames {1,3}, cells {none, orthorhombic, triclinic-varying}, magnitudes {1, 90}); each cell "
             "is saved, reloaded with mdtraj and read with an independent reader; frames/atoms must match, coordinates "
@@ -60,6 +60,8 @@ CELLS = {
     "cubic": ([4.0, 4.0, 4.0], [90.0, 90.0, 90.0]),
     "ortho": ([4.0, 5.0, 6.5], [90.0, 90.0, 90.0]),
     "triclinic": ([4.0, 5.0, 6.5], [75.0, 100.0, 115.0]),
+    # beta and gamma on opposite sides of 90 degrees: the tilt factors xy and xz of a LAMMPS-style box have opposite signs
+    "triclinic_opp": ([4.0, 5.0, 6.5], [85.0, 75.0, 110.0]),
     # exactly one skewed angle each: the box matrix then has exactly one non-zero off-diagonal element
     "mono_alpha": ([4.0, 5.0, 6.5], [75.0, 90.0, 90.0]),
     "mono_beta": ([4.0, 5.0, 6.5], [90.0, 105.0, 90.0]),
@@ -393,8 +395,8 @@ def cases(quick):
     exts = list(CAP)
     atoms = [1, 9, 10] if quick else [1, 2, 9, 10, 13]
     frames = [1, 3] if quick else [1, 2, 3]
-    cells = ["none", "ortho", "varying", "mono_alpha"] if quick else \
-        ["none", "cubic", "ortho", "triclinic", "varying", "mono_alpha", "mono_beta", "mono_gamma", "rhombo60", "acute"]
+    cells = ["none", "ortho", "varying", "mono_alpha", "triclinic_opp"] if quick else \
+        ["none", "cubic", "ortho", "triclinic", "triclinic_opp", "varying", "mono_alpha", "mono_beta", "mono_gamma", "rhombo60", "acute"]
     mags = [1.0, 90.0] if quick else [1e-3, 1.0, 90.0, 950.0]     # 950 nm = 9500 A: just under the %8.3f field limit
     signs = ["mixed"] if quick else ["mixed", "positive"]
     times = ["uniform", "nonuniform"] if quick else ["default", "uniform", "nonuniform"]      # uniform starts at exactly 0 ps
